@@ -2,6 +2,7 @@
    entry points).  At integration add to coq/Extract.v:
      TmapModel.tmap_alloc TmapModel.tmap_add TmapModel.tmap_rate TmapModel.tmap_unchecked
      TmapModel.tmap_sample_id_to_timestamp TmapModel.tmap_timestamp_to_sample_id
+     TmapModel.tmap_sample_id_to_timestamp_fixed TmapModel.tmap_timestamp_to_sample_id_fixed
      TmapModel.TMAP_ERROR_UNAVAILABLE TmapModel.TMAP_TIME_SECOND
    and `TmapModel` to the Require line. *)
 From Coq Require Import Extraction ExtrOcamlBasic NArith ZArith QArith List.
@@ -11,5 +12,6 @@ Extraction "jlsmodel_ext"
   BinInt.Z.add BinInt.Z.opp BinInt.Z.of_N BinInt.Z.to_N BinNat.N.add BinNat.N.mul BinNat.N.of_nat BinNat.N.to_nat
   TmapModel.tmap_alloc TmapModel.tmap_add TmapModel.tmap_rate TmapModel.tmap_unchecked
   TmapModel.tmap_sample_id_to_timestamp TmapModel.tmap_timestamp_to_sample_id
+  TmapModel.tmap_sample_id_to_timestamp_fixed TmapModel.tmap_timestamp_to_sample_id_fixed
   TmapModel.TMAP_ERROR_UNAVAILABLE TmapModel.TMAP_TIME_SECOND
   Generated.TMAP_ENTRIES_ALLOC_INIT Generated.SIZEOF_utc_summary_entry.
